@@ -1,6 +1,6 @@
 """C17 - MDO formulations are equivalent views of the same problem (engine E2, level "exploration").
 
-Bounded-exhaustive enumeration (mc.product.full + mc.core.pmap) of
+Bounded-exhaustive enumeration (mc.product.full + mc.core.pmap, per-case timeout) of
 
     coupled system (9 coupling graphs on 2-3 harness disciplines, unequal variable sizes 1-2, one shared design
                     variable z, local design variables x{i}, one or two couplings per producer)
@@ -14,6 +14,10 @@ Bounded-exhaustive enumeration (mc.product.full + mc.core.pmap) of
                                                           DisciplinaryOpt (systems without strong couplings);
                                                           thorough: IDF(start_at_equilibrium), MDF(main MDA = Gauss-Seidel)
   x 3 design points, each at the consistent couplings y*(x) and at an inconsistent y* + delta (IDF).
+
+The thorough tier is this whole product; the quick tier keeps every order for the two base variants but builds the complete
+formulation product only on the covering orders (gemseo's defaults IDF-normalized / MDF-Jacobi on the others) and visits the
+other four variants on 3 orders (see ``cases``; the evidence "rule" states it exactly).
 
 Every formulation object is evaluated through the functions of its ``optimization_problem`` (``evaluate`` / ``jac``),
 in its own design-space order, several points in a row (the input mask of ``FunctionFromDiscipline`` is computed at
@@ -745,7 +749,7 @@ def run_case(case, tally):
 
 
 def _key(case):
-    return (case["system"], case["variant"], case["obj"], tuple(case["cons"]), tuple(case["order"]))
+    return (case["system"], case.get("variant", "affine"), case["obj"], tuple(case["cons"]), tuple(case["order"]))
 
 
 def _eval(func, x, nrows):
@@ -925,9 +929,8 @@ def run_opt(case, tally):
             for c in cons:
                 sc.add_constraint(c, constraint_type="ineq")
             prob = sc.formulation.optimization_problem
-            prob.tolerances.equality = FEAS
-            prob.tolerances.inequality = FEAS
-            sc.execute(algo_name="SLSQP", max_iter=200, ftol_rel=1e-12, ftol_abs=1e-12, xtol_rel=1e-12, xtol_abs=1e-12)
+            sc.execute(algo_name="SLSQP", max_iter=200, ftol_rel=1e-12, ftol_abs=1e-12, xtol_rel=1e-12, xtol_abs=1e-12,
+                       eq_tolerance=FEAS, ineq_tolerance=FEAS)
             res = prob.solution
             xopt = prob.design_space.convert_array_to_dict(np.asarray(res.x_opt, dtype=float))
             results[fv[0]] = {"fv": fv, "f": float(np.atleast_1d(res.f_opt)[0]), "x": xopt, "feasible": bool(res.is_feasible), "n_iter": len(prob.database)}
@@ -1095,16 +1098,22 @@ def run(ctx):
     ctx.tally.notes["optimization_cases"] = n_opt
     return {
         "level": LEVEL,
-        "rule": "E2 full product: 9 coupling graphs x harness variant x (objective provider, constraint provider(s)) x design-space order "
-        "(all 24 orders of <= 4 variables; 5 variables: " + ("all 120" if ctx.thorough else "strength-3 sequence-covering set") + "; "
-        "non-base variants: " + ("all orders" if ctx.thorough else "strength-3 covering set") + ") x formulation variant "
-        "(IDF normalize in {F,T}; MDF inner MDA in {Jacobi, Gauss-Seidel, Newton}; DisciplinaryOpt on weakly coupled systems"
-        + ("; IDF start_at_equilibrium; MDF main MDA Gauss-Seidel; SLSQP optima on the convex members" if ctx.thorough else "") + ") x 3 design points x "
-        "{consistent, inconsistent} couplings.  One evaluation = one formulation object built and interrogated.  It is non-trivial when at least one of "
+        "rule": "E2 product: 9 coupling graphs x 6 harness variants x (objective provider, constraint provider(s)) x design-space order x formulation variant "
+        "x 3 design points x {consistent, inconsistent} couplings.  " + (
+            "thorough: every order (5-variable systems: all 120 for the two base variants, the strength-3 sequence-covering set for the others) x complete "
+            "formulation product (IDF normalize in {F,T}; MDF/MDAChain inner MDA in {Jacobi, Gauss-Seidel, Newton}; DisciplinaryOpt on weakly coupled systems), "
+            "plus IDF(start_at_equilibrium) and MDF(main MDA = MDAGaussSeidel) on the covering orders, plus SLSQP optima of MDF / IDF / DisciplinaryOpt on the convex members"
+            if ctx.thorough else
+            "quick: base variants (affine, nonlinear) x all 24 orders of the 4-variable systems / the strength-3 sequence-covering orders of the 5-variable systems, "
+            "with the complete formulation product (IDF normalize in {F,T}; MDF/MDAChain inner MDA in {Jacobi, Gauss-Seidel, Newton}; DisciplinaryOpt on weakly coupled "
+            "systems) on the covering orders (5 variables: the first 3) and gemseo's defaults (IDF normalized, MDF/Jacobi, DisciplinaryOpt) on the other orders; the 4 other "
+            "variants on 3 orders x complete formulation product; 3-discipline systems: 9 single-constraint choices (+1 two-constraint choice on 4-variable systems)"
+        ) + ".  One evaluation = one formulation object built and interrogated.  It is non-trivial when at least one of "
         "its functions reads design-vector components that are not a prefix of the design vector in order (input mask != identity)",
         "exhaustive": True,
         "bounds": {"disciplines": "2-3", "sizes": "1-2 (unequal)", "design_points": 3, "mda_tolerance": TOL, "alphabet": ALPHA["name"],
-                   "orders_5_variables": "all" if ctx.thorough else "strength-3 covering"},
+                   "orders_5_variables": "all 120 (base variants)" if ctx.thorough else "strength-3 covering",
+                   "formulation_product": "complete" if ctx.thorough else "complete on covering orders, defaults elsewhere"},
         "assumptions": [
             "harness disciplines: affine or affine + 0.3 sin(.) outputs, contraction constant <= 0.45 (inf norm); 3 value alphabets rotated by VERIF_SEED",
             "functions are interrogated through optimization_problem.objective / constraints evaluate() and jac() (no design-space normalization, C01 owns it)",
